@@ -21,13 +21,11 @@ package resolver
 import (
 	"bytes"
 	"encoding/gob"
-	"encoding/json"
 	"fmt"
 	"os" // the REAL os (harness files are not import-rewritten)
 	"path/filepath"
 	"sort"
 	"strings"
-	"testing"
 	"time"
 
 	"github.com/miekg/dns"
@@ -829,6 +827,11 @@ func (w *vkC09World) judge(ev vkC09Ev, pub *vkC09Pub, pre, post vkC09Obs, asked,
 			label += ":" + ev.File + "." + ev.Op
 		}
 	}
+	// (e) both writes failed during a new revocation: fail closed
+	if ev.Fault == "dual" && fired && len(st.Revoked) > 0 && len(post.I) != 0 {
+		return &vkC09Viol{Key: "e-unpersisted-revocation-not-failclosed|" + vkC09SortedJoin(post.I),
+			Msg: fmt.Sprintf("neither record of the new revocation of %v could be persisted but validation still trusts [%s]", st.Revoked, vkC09SortedJoin(post.I))}, ""
+	}
 	// per-key verdicts
 	for _, b := range vkC09Bases {
 		v, why := w.ref.verdict(b, &st, now)
@@ -915,6 +918,16 @@ func (w *vkC09World) judge(ev vkC09Ev, pub *vkC09Pub, pre, post vkC09Obs, asked,
 			}
 		}
 	}
+	// In a history with an injected fault the implementation may legitimately not know the key as an
+	// anchor any more; a revocation it did not record is then not held against it later.
+	if w.faults > 0 && !(ev.Fault == "dual" && fired) {
+		for _, b := range st.Revoked {
+			if k := w.ref.K[b]; !post.Tomb[b] && post.State[b].State != StateRevoked && k.St == vkRevoked && !k.Vol {
+				k.St, k.Since = k.Prev, k.PrevSince
+				label += "+revocation-not-recorded(fault-history)"
+			}
+		}
+	}
 	// (b) a response no trusted key authenticates changes nothing
 	if st.Auth == "none" {
 		if !vkC09SameFiles(pre.Files, post.Files) && ev.Fault != "tombloop" {
@@ -944,11 +957,6 @@ func (w *vkC09World) judge(ev vkC09Ev, pub *vkC09Pub, pre, post vkC09Obs, asked,
 					Msg: fmt.Sprintf("publication %s is authenticated only by the revoked key's self-signature, yet %s entered the state file: after {%s}", pub.Name, n, vkC09ObsStr(post))}, ""
 			}
 		}
-	}
-	// (e) both writes failed during a new revocation: fail closed
-	if ev.Fault == "dual" && fired && len(st.Revoked) > 0 && len(post.I) != 0 {
-		return &vkC09Viol{Key: "e-unpersisted-revocation-not-failclosed|" + vkC09SortedJoin(post.I),
-			Msg: fmt.Sprintf("neither record of the new revocation of %v could be persisted but validation still trusts [%s]", st.Revoked, vkC09SortedJoin(post.I))}, ""
 	}
 	// (e) unopenable store: the property text demands fail closed
 	if ev.Fault == "tombloop" && len(post.I) != 0 {
@@ -1204,166 +1212,4 @@ func vkC09MergeRef(before, after *vkC09Ref, landed bool) *vkC09Ref {
 	// revocations no record could hold are forgotten by the restart
 	m.restart()
 	return m
-}
-
-// ---------------------------------------------------------------- the explorer
-
-type vkC09ReplayT struct {
-	Hist  []vkC09Ev `json:"hist"`
-	Crash bool      `json:"crash,omitempty"`
-	Power bool      `json:"power,omitempty"`
-}
-
-func vkC09Nontrivial(w *vkC09World, o vkC09Obs) bool {
-	return w.faults > 0 || !(len(o.I) == 1 && o.I["K1"])
-}
-
-func TestVerifC09Hist(t *testing.T) {
-	c := vkit.Init("C09/hist")
-	defer c.Close()
-	if _, err := vkC09StartRoot(); err != nil {
-		c.HarnessError("cannot start the scripted root: " + err.Error())
-		return
-	}
-	if c.Replay != nil {
-		var r vkC09ReplayT
-		if err := json.Unmarshal(c.Replay, &r); err != nil {
-			c.HarnessError("bad replay: " + err.Error())
-			return
-		}
-		v, w, _ := vkC09Replay(r.Hist)
-		if v == nil && r.Crash {
-			v = vkC09CrashExpand(c, r.Hist, w, r.Power)
-		}
-		if w != nil {
-			w.stop()
-		}
-		if v != nil {
-			if v.Key == "harness" {
-				c.HarnessError(v.Msg)
-				return
-			}
-			c.Violation(v.Key, "after ["+vkC09HistStr(r.Hist)+"]: "+v.Msg, r)
-		}
-		return
-	}
-	evs := vkC09Events(c.Thorough())
-	maxDepth, crashCap := 5, 24
-	if c.Thorough() {
-		maxDepth, crashCap = 6, 1 << 30
-	}
-	type node struct {
-		hist    []vkC09Ev
-		faulted bool
-	}
-	seen := map[string]bool{}
-	crashSeen := map[string]bool{}
-	crashDone := 0
-	frontier := []node{{}}
-	start := time.Now()
-	for depth := 1; depth <= maxDepth && len(frontier) > 0; depth++ {
-		var next []node
-		for ni, n := range frontier {
-			for ei, ev := range evs {
-				// shard on the (first, second) event pair; depth 1 is replayed by every shard
-				if depth == 2 && !c.Mine(ni*len(evs)+ei) {
-					continue
-				}
-				if n.faulted && (ev.isFault() || ev.Kind == "corrupt") {
-					continue // at most one injected fault per history (a crash may still follow)
-				}
-				if c.OverBudget() {
-					c.Cap(fmt.Sprintf("time budget reached at depth %d", depth))
-					goto done
-				}
-				h := append(append([]vkC09Ev{}, n.hist...), ev)
-				viol, w, outs := vkC09Replay(h)
-				if depth > 1 || c.Mine(0) {
-					c.Add("transitions", 1)
-					c.Add("evaluations", 1)
-					c.Add("traces", 1)
-				}
-				if viol != nil {
-					if w != nil {
-						w.stop()
-					}
-					if viol.Key == "harness" {
-						c.HarnessError(viol.Msg + " in [" + vkC09HistStr(h) + "]")
-						return
-					}
-					v2, w2, _ := vkC09Replay(h)
-					if w2 != nil {
-						w2.stop()
-					}
-					if v2 == nil || v2.Key != viol.Key {
-						c.Add("dropped_unreproducible", 1)
-						c.Note("dropped a non-reproducing observation: " + viol.Msg[:min(len(viol.Msg), 200)])
-						continue
-					}
-					c.Violation(viol.Key, "after ["+vkC09HistStr(h)+"]: "+viol.Msg, vkC09ReplayT{Hist: h})
-					continue // a violating state is not expanded
-				}
-				o := w.observe()
-				d := w.digest(o)
-				c.Outcome(outs[len(outs)-1])
-				isNew := !seen[d]
-				// crash enumeration on refreshes that wrote: quick = those completing a revocation
-				if ev.Kind == "ref" && w.lastWrote && w.faultsBeforeLast == 0 && (c.Thorough() || (w.lastRev && ev.Fault == "")) && crashDone < crashCap {
-					ck := w.lastPreDg + "|" + ev.String()
-					if !crashSeen[ck] {
-						crashSeen[ck] = true
-						crashDone++
-						cv := vkC09CrashExpand(c, h, w, c.Thorough())
-						c.Add("crash_expansions", 1)
-						if cv != nil {
-							if cv.Key == "harness" {
-								w.stop()
-								c.HarnessError(cv.Msg + " in [" + vkC09HistStr(h) + "]")
-								return
-							}
-							// reproduce on fresh state
-							v2, w2, _ := vkC09Replay(h)
-							var cv2 *vkC09Viol
-							if v2 == nil {
-								cv2 = vkC09CrashExpand(c, h, w2, c.Thorough())
-							}
-							if w2 != nil {
-								w2.stop()
-							}
-							if cv2 == nil || cv2.Key != cv.Key {
-								c.Add("dropped_unreproducible", 1)
-								c.Note("dropped a non-reproducing crash observation: " + cv.Msg[:min(len(cv.Msg), 200)])
-							} else {
-								c.Violation(cv.Key, "after ["+vkC09HistStr(h)+"]: "+cv.Msg, vkC09ReplayT{Hist: h, Crash: true, Power: c.Thorough()})
-							}
-						}
-						vtime.SetOffset(0)
-					}
-				}
-				w.stop()
-				if !isNew {
-					continue
-				}
-				seen[d] = true
-				c.DistinctStr("states", d)
-				if vkC09Nontrivial(w, o) {
-					c.DistinctStr("nontrivial", d)
-				}
-				c.Max("max_depth", int64(depth))
-				if len(seen)%300 == 7 {
-					c.Sample(map[string]any{"hist": vkC09HistStr(h), "state": d, "outcomes": outs})
-				}
-				next = append(next, node{hist: h, faulted: n.faulted || ev.isFault() || ev.Kind == "corrupt"})
-			}
-		}
-		frontier = next
-		fmt.Printf("C09/hist shard %d: depth %d done, %d states, frontier %d, %.1fs\n", c.Shard(), depth, len(seen), len(frontier), time.Since(start).Seconds())
-	}
-done:
-	c.Add("resolvers_fresh", int64(vkC09Fresh))
-	c.Add("resolvers_recycled", int64(vkC09Recycled))
-	c.Add("transient_exchange_failures_replayed", int64(vkC09Transient))
-	if len(frontier) == 0 {
-		c.Note("C09/hist: frontier empty — every reachable state over the alphabet visited")
-	}
 }
